@@ -526,7 +526,7 @@ def jobs(tier):
 
 
 BOUNDS = {
-    "quick": "user awaitables (source pulls, async callables, locks, context managers) suspend 0..2 times (sources, locks, context managers) / 0..1 times (callables) each (symbolic), every suspension yields a fresh token object and expects its token-specific reply; N<=2 items (two-source tools N<=1); 14 further operation classes; an exception thrown in by the loop (asyncio.CancelledError) at suspension k reaches the suspended user awaitable unchanged and cleanup still only suspends in user awaitables (contextmanager, ExitStack, lru_cache, cached_property+lock, any_iter, await_each, apply, sync, scoped_iter/borrow, tee+lock, groupby, closing/nullcontext/decorator); asyncio loop accessors stubbed to raise; 23 operations over synchronous inputs of symbolic size 0..4 plus, natively in the pre-flight only, sizes 1000, 10001 and 70000",
+    "quick": "user awaitables (source pulls, async callables, locks, context managers) suspend 0..2 times (sources, locks, context managers) / 0..1 times (callables) each (symbolic), every suspension yields a fresh token object and expects its token-specific reply; N<=2 items (two-source tools N<=1); 19 further operation classes; an exception thrown in by the loop (asyncio.CancelledError) at suspension k reaches the suspended user awaitable unchanged and cleanup still only suspends in user awaitables (contextmanager, ExitStack, lru_cache, cached_property+lock, any_iter, await_each, apply, sync, scoped_iter/borrow, tee+lock, groupby, closing/nullcontext/decorator); asyncio loop accessors stubbed to raise; 23 operations over synchronous inputs of symbolic size 0..4 plus, natively in the pre-flight only, sizes 1000, 10001 and 70000",
     "thorough": "N<=3 (two-source tools N<=2)",
 }
 OUTSIDE = ["running under real asyncio/trio loops (nothing loop-specific can be reached without failing the token or loop-accessor checks, but that is an argument, not a check)", "lengths above the bound"]
